@@ -547,6 +547,27 @@ def check_fill_queue(ctx, rep, rules=('B-acc', 'X-opsites', 'W-iter')):
                         rep.analysed.add(e['callee'])
                         yield (e['line'], he['line']), ca
 
+    # implicit flows of the operation: the same call site must hand process_polygon the same values (except the exterior flag and
+    # the contour id) on the paths that assumed `operation == X` and on those that assumed the opposite (seed s102: an
+    # Option chosen under the permitted branch `operation == Difference` carried a Difference-only cull into process_polygon)
+    implicit = {}
+    for p in ps:
+        opkey = tuple(sorted(set((show(noepoch(v))[:120], repr(c)) for v, c in p.conds
+                                 if any(x[0] == 'param' and len(x) > 2 and x[2] == 'operation' for x in sym.walk(v)))))
+        for line_, a in pp_calls(p):
+            for i, av in enumerate(a):
+                if i in (2, 5):
+                    continue
+                implicit.setdefault((line_, i), {}).setdefault(opkey, set()).add(show(noepoch(av))[:200])
+    n_imp = 0
+    for (line_, i), groups in sorted(implicit.items(), key=str):
+        vals = list(groups.values())
+        n_imp += 1
+        same = all(v == vals[0] for v in vals[1:])
+        rep.ob(R_OPS, 'argument-independent-of-operation:arg%d' % i, same,
+               'argument %d of a process_polygon call depends on which way an operation test went (%s): the operation may influence only the '
+               'exterior flag and the contour id of clipping rings' % (i, sorted(set().union(*vals))[:3]), loc=b.loc(line_[0] if isinstance(line_, tuple) else line_), reason='dominance')
+    rep.floor(R_OPS, 'process_polygon arguments compared across operation assumptions', n_imp, 16)
     for p in ps:
         for line_, a in pp_calls(p):
             e = {'line': line_}
